@@ -86,13 +86,14 @@ theorem not_refines_of_panics {P : Params} {init : Fs} {cfg : Cfg} {h : List Op}
   | panic => simp
   | hang => simp
 
-theorem witness_F10_not_refines : ¬ Refines wP wInit 0 hF10 :=
-  not_refines_of_panics (by decide)
+/-- F10 is fixed in /repo (the directory branch unregisters the removed items and restarts the
+dependants of everything below the folder): the former panic witness now lies inside `H10` -/
+theorem hF10_inside : H10 wP 1 wInit 0 hF10 = true := by decide
 /-- F11 is fixed in /repo (`process` runs `clean_files` before its early return): the former
 counterexample now lies inside `H10` -/
 theorem hF11_inside : H10 wP 1 wInit 0 hF11 = true := by decide
-theorem witness_F11b_not_refines : ¬ Refines wP wInit 0 hF11b :=
-  not_refines_of_differsAt (q := [1, 10]) (by decide)
+/-- F11b is fixed in /repo (`insert_source` takes the output off `remove_files`) -/
+theorem hF11b_inside : H10 wP 1 wInit 0 hF11b = true := by decide
 theorem witness_F12_not_refines : ¬ Refines wP wInit12 0 hF12 :=
   not_refines_of_differsAt (q := [1, 2, 11]) (by decide)
 theorem witness_F13_not_refines : ¬ Refines wP wInit 0 hF13 :=
@@ -102,8 +103,7 @@ theorem witness_E_not_refines : ¬ Refines wP wInit 0 hE :=
 
 /-- each counterexample sits in the region named after it, and `hGood` is inside `H10` -/
 theorem witness_regions :
-    sessionRegion wP 1 wInit 0 hF10 = some .F10
-    ∧ sessionRegion wP 1 wInit 0 hF11b = some .F11b ∧ sessionRegion wP 1 wInit12 0 hF12 = some .F12
+    sessionRegion wP 1 wInit12 0 hF12 = some .F12
     ∧ sessionRegion wP 1 wInit 0 hF13 = some .F13 ∧ sessionRegion wP 1 wInit 0 hE = some .E := by
   decide
 
